@@ -1,18 +1,35 @@
 import DuneVerif.Proofs.C20Store
 import DuneVerif.Proofs.C20Ops
 import DuneVerif.Proofs.C20Tuple
+import DuneVerif.Proofs.C20Slice
+import DuneVerif.Proofs.C20View
+import DuneVerif.Proofs.C20InvOps
 /-!
-C20 — property theorems (all vector sizes, all entries, all integer indices, all store states).
+C20 — property theorems (all vector sizes, all entries, all integer indices, all store states, all programs).
 
 The model (`DuneVerif/Model/C20.lean`) is tied to dune-common's bindings by the differential run of
 `tools/check.py C20`; the theorems below are about that model.
+
+Clause of the property → theorems
+* construction from list / tuple / args / buffer / NumPy array: `construct_spec`, `construct_buffer_spec`,
+  `dyn_construct_spec`
+* indexing with Python semantics, IndexError outside `[-n, n)`: `getitem_spec`, `setitem_spec`,
+  `getitem_out_of_range_error`, `getitem_out_of_range_untouched`
+* length, iteration: `iter_spec`;  slicing through the buffer view: `slice_spec`, `slice_lists`, `slice_observation`
+* arithmetic / comparison / norms / string conversion: `ops_agree_with_cxx_model`, `scalar_ops_spec`,
+  `plain_ops_entrywise`, `norms_spec`, `inplace_agrees`, `str_spec`
+* memory sharing: `view_aliases`, `sliceview_aliases`, `npvector_writes_through_view`, `npvector_scale_visible`,
+  `copy_independent`, `npcopy_independent`
+* never touching memory outside the object, for all programs: `invariant_initial`, `invariant_step`,
+  `all_histories_safe`
+* tuple vectors: `tuplevector_preserves`
 -/
 namespace DV.C20
 
 /-! ### construction from list / tuple / args / buffer / NumPy array -/
 
-/-- The constructor loop of `registerFieldVector` yields exactly `n` entries: the first `n` given numbers,
-    zero-filled when fewer are given. -/
+/-- The constructor loop of `registerFieldVector` (list, tuple, argument pack, `copy(*args)`) yields exactly `n`
+    entries: the first `n` given numbers, zero-filled when fewer are given. -/
 theorem construct_spec (n : Nat) (xs : List Int) :
     constructLoop n xs = (xs ++ List.replicate n 0).take n ∧
     (constructLoop n xs).length = n ∧
@@ -22,6 +39,23 @@ theorem construct_spec (n : Nat) (xs : List Int) :
 
 example : constructLoop 3 [7, 8] = [7, 8, 0] ∧ constructLoop 2 [7, 8, 9] = [7, 8] ∧ constructLoop 2 [] = [0, 0] := by
   decide
+
+/-- The buffer constructor (NumPy array, strided or reversed NumPy view, `array.array`): for every memory, base
+    pointer `off`, stride and shape the result is the first `n` entries *of the buffer* (entry `j` of the buffer is
+    the memory cell `off + j*stride`), zero-filled — independently of what lies between the strided entries. -/
+theorem construct_buffer_spec (n : Nat) (mem : List Int) (off stride : Int) (shape : Nat) :
+    constructBuf n mem off stride shape = construct n ((List.range shape).map (bufEntry mem off stride)) ∧
+    (constructBuf n mem off stride shape).length = n :=
+  ⟨constructBuf_eq n mem off stride shape, constructBuf_length n mem off stride shape⟩
+
+example : constructBuf 3 [1, 77, 2, 77] 0 2 2 = [1, 2, 0] ∧            -- a[::2] of [1,77,2,77], zero-filled
+    constructBuf 2 [77, 3, 77, 2, 77, 1] 5 (-2) 3 = [1, 2] ∧            -- a[::-2], truncated
+    constructBuf 2 (stridedMem (-2) [1, 2, 3]).1 (stridedMem (-2) [1, 2, 3]).2 (-2) 3 = [1, 2] := by decide
+
+/-- DynamicVector's list constructor holds exactly the given numbers. -/
+theorem dyn_construct_spec (xs : List Int) : dynConstructLoop xs = xs := dynConstructLoop_eq xs
+
+example : dynConstructLoop [4, 5, 6] = [4, 5, 6] ∧ dynConstructLoop [] = [] := by decide
 
 /-! ### indexing -/
 
@@ -47,25 +81,32 @@ theorem getitem_spec (v : List Int) (i : Int) (h0 : -(v.length : Int) ≤ i) (h1
 example : getItem [5, 6, 7] (-1) = .ok 7 ∧ getItem [5, 6, 7] (-3) = .ok 5 ∧ getItem [5, 6, 7] 2 = .ok 7 :=
   ⟨rfl, rfl, rfl⟩
 
-/-- An index outside `[-n, n)` raises `IndexError`, for reading and for writing. -/
+/-- An index outside `[-n, n)` — every such integer, however large — raises `IndexError`, for reading and for writing. -/
 theorem getitem_out_of_range_error (v : List Int) (i x : Int)
     (h : i < -(v.length : Int) ∨ (v.length : Int) ≤ i) :
     getItem v i = .error .index ∧ setItem v i x = .error .index := by
   have hn := normIndex_out v.length i h
   simp [getItem, setItem, hn]
 
-/-- … and in the store model the out-of-range access touches nothing: the state is unchanged. -/
+/-- … and in the store model the out-of-range access touches nothing: the state is unchanged (`okInt k` only says that
+    the value written is in the range of exactly representable entries the model is run with; the index is arbitrary). -/
 theorem getitem_out_of_range_untouched (kd : Kind) (hk : kd.isVec = true) (s : State) (x b : Nat) (i k : Int)
-    (hx : s.xs x = some b) (hi : okIdx i = true) (hkk : okInt k = true)
+    (hx : s.xs x = some b) (hkk : okInt k = true)
     (h : i < -((s.read b).length : Int) ∨ ((s.read b).length : Int) ≤ i) :
-    step kd s (.get x i) = (s, "ERR:Index") ∧ step kd s (.set x i k) = (s, "ERR:Index") := by
+    step kd s (.v (.get false x i)) = (s, "ERR:Index") ∧ step kd s (.v (.set false x i k)) = (s, "ERR:Index") := by
   have hg := getitem_out_of_range_error (s.read b) i k h
-  rw [step_get kd hk s x b i hx hi, step_set kd hk s x b i k hx hi hkk, hg.1, hg.2]
+  rw [step_get kd hk s x b i hx, step_set kd hk s x b i k hx hkk, hg.1, hg.2]
   exact ⟨rfl, rfl⟩
 
 example : getItem [5, 6, 7] 3 = .error .index ∧ getItem [5, 6, 7] (-4) = .error .index ∧
-    setItem [5, 6, 7] 3 1 = .error .index ∧ getItem [] 0 = .error .index :=
-  ⟨rfl, rfl, rfl, rfl⟩
+    setItem [5, 6, 7] 3 1 = .error .index ∧ getItem [] 0 = .error .index ∧
+    getItem [5, 6, 7] 18446744073709551616 = .error .index ∧ setItem [5] (-9223372036854775809) 1 = .error .index :=
+  ⟨rfl, rfl, rfl, rfl, rfl, rfl⟩
+
+example :
+    let s0 := (step (.fv 2) {} (.v (.new 0 .list [4, 5]))).1
+    (step (.fv 2) s0 (.v (.get false 0 2))).2 = "ERR:Index" ∧ (step (.fv 2) s0 (.v (.set false 0 (-3) 1))).2 = "ERR:Index" := by
+  decide
 
 /-- For `-n ≤ i < n`, `v[i] = x` replaces entry `i mod n` and nothing else. -/
 theorem setitem_spec (v : List Int) (i x : Int) (h0 : -(v.length : Int) ≤ i) (h1 : i < v.length) :
@@ -85,26 +126,83 @@ theorem setitem_spec (v : List Int) (i x : Int) (h0 : -(v.length : Int) ≤ i) (
 
 example : setItem [5, 6, 7] (-2) 9 = .ok [5, 9, 7] := rfl
 
+/-! ### length and iteration -/
+
+/-- Python iterates over a dense vector with the legacy sequence protocol (`__getitem__(0)`, `__getitem__(1)`, …
+    until `IndexError`).  That loop yields exactly the entries, in order: it gets entry `i` for every `i < n`, and it
+    is the `IndexError` at index `n` that ends it (not the fuel of the model). -/
+theorem iter_spec (v : List Int) :
+    pyIter v = v ∧ (pyIter v).length = v.length ∧
+    (∀ i (h : i < v.length), getItem v (i : Int) = .ok v[i]) ∧ getItem v (v.length : Int) = .error .index := by
+  refine ⟨pyIter_eq v, by rw [pyIter_eq], fun i h => getItem_nat_lt v i h, getItem_nat_ge v v.length (Nat.le_refl _)⟩
+
+example : pyIter [3, 1, 4] = [3, 1, 4] ∧ pyIter [] = [] ∧ iterFrom [3, 1, 4] 0 2 = [3, 1] := by decide
+
+/-! ### slicing through the buffer view -/
+
+/-- `v[i:j:st]` (`st ≠ 0`) is handed out as a view with first position `start` and `len` entries, entry `k` at position
+    `start + k*st`.  Every entry is a position of the vector (nothing outside `[0, n)` is ever denoted), and the slice
+    is exact: for a positive step, entry `k` exists iff `lo + k*st` is below the clamped stop; for a negative step iff
+    it is above it (`sliceLo/Hi…` are the clamped bounds of CPython's `PySlice_AdjustIndices`). -/
+theorem slice_spec (n : Nat) (i j : Option Int) (st : Int) (hst : st ≠ 0) :
+    (∀ k : Nat, k < (sliceIdx n i j st).2 →
+      0 ≤ (sliceIdx n i j st).1 + (k : Int) * st ∧ (sliceIdx n i j st).1 + (k : Int) * st < (n : Int)) ∧
+    (0 < st → (sliceIdx n i j st).1 = sliceLo n i ∧
+      ∀ k : Nat, k < (sliceIdx n i j st).2 ↔ sliceLo n i + (k : Int) * st < sliceHi n j) ∧
+    (st < 0 → (sliceIdx n i j st).1 = sliceLoNeg n i ∧
+      ∀ k : Nat, k < (sliceIdx n i j st).2 ↔ sliceHiNeg n j < sliceLoNeg n i + (k : Int) * st) :=
+  ⟨fun k hk => slice_in_bounds n i j st hst k hk,
+   fun h => ⟨sliceIdx_fst_pos n i j st h, fun k => slice_exact_pos n i j st h k⟩,
+   fun h => ⟨sliceIdx_fst_neg n i j st h, fun k => slice_exact_neg n i j st h k⟩⟩
+
+example : sliceIdx 6 (some 1) (some (-1)) 2 = (1, 2) ∧ sliceIdx 6 (some (-100)) none 4 = (0, 2) ∧
+    sliceIdx 6 none (some 0) (-2) = (5, 3) ∧ sliceIdx 6 (some 2) (some 2) 1 = (2, 0) ∧
+    sliceLo 6 (some (-100)) = 0 ∧ sliceHi 6 (some 100) = 6 ∧ sliceLoNeg 6 (some 100) = 5 ∧ sliceHiNeg 6 (some (-100)) = -1 := by
+  decide
+
+/-- What slices show of the entries `l`: `l[:]` is `l`, `l[::-1]` is `l` reversed, and a step-one slice from `lo` with
+    `len` entries is `(l.drop lo).take len`. -/
+theorem slice_lists (l : List Int) (lo len : Nat) (h : lo + len ≤ l.length) :
+    sliceIdx l.length none none 1 = (0, l.length) ∧ cellsOf l 0 1 l.length = l ∧
+    sliceIdx l.length none none (-1) = ((l.length : Int) - 1, l.length) ∧
+    cellsOf l ((l.length : Int) - 1) (-1) l.length = l.reverse ∧
+    cellsOf l (lo : Int) 1 len = (l.drop lo).take len :=
+  ⟨slice_full l.length, cellsOf_full l, slice_reverse l.length, cellsOf_reverse l, cellsOf_step_one l lo len h⟩
+
+/-- The bound operation `v[i:j:st]` shows exactly the cells of `v` at the positions of the slice. -/
+theorem slice_observation (n : Nat) (s : State) (x b : Nat) (i j : Option Int) (st : Int) (hst : st ≠ 0)
+    (hx : s.xs x = some b) :
+    step (.fv n) s (.v (.slice x i j (some st))) =
+      (s, showInts (cellsOf (s.read b) (sliceIdx (s.read b).length i j st).1 st (sliceIdx (s.read b).length i j st).2)) := by
+  simp [step, Kind.isVec, vecEff, Kind.isFv, hx, hst, Eff.apply, State.viewVals, cellsOf, View.pos]
+
+example :
+    let s0 := (step (.fv 6) {} (.v (.new 0 .list [10, 11, 12, 13, 14, 15]))).1
+    (step (.fv 6) s0 (.v (.slice 0 (some 4) (some 0) (some (-2))))).2 = "[14,12]" ∧
+    (step (.fv 6) s0 (.v (.slice 0 (some (-100)) (some 100) (some 3)))).2 = "[10,13]" := by decide
+
 /-! ### memory sharing -/
 
 /-- `a = numpy.array(v, copy=False)` and `v` denote the same cells: the view shows the vector's entries, a write
-    through the view is read back through the vector, a write through the vector is read back through the view. -/
-theorem view_aliases (n : Nat) (s : State) (x a b : Nat) (i k : Int)
-    (hx : s.xs x = some b) (hb : b < s.blocks.length)
+    through the view is read back through the vector, a write through the vector is read back through the view.
+    `Inv (.fv n) s` holds in every reachable state (`all_histories_safe`). -/
+theorem view_aliases (n : Nat) (s : State) (hinv : Inv (.fv n) s) (x a b : Nat) (i k : Int)
+    (hx : s.xs x = some b)
     (h0 : -((s.read b).length : Int) ≤ i) (h1 : i < (s.read b).length)
     (hi : okIdx i = true) (hk : okInt k = true) :
-    (step (.fv n) s (.view a x)).2 = showInts (s.read b) ∧
-    (step (.fv n) (step (.fv n) (step (.fv n) s (.view a x)).1 (.aset a i k)).1 (.get x i)).2 = toString k ∧
-    (step (.fv n) (step (.fv n) (step (.fv n) s (.view a x)).1 (.set x i k)).1 (.aget a i)).2 = toString k := by
+    (step (.fv n) s (.v (.view a x))).2 = showInts (s.read b) ∧
+    (step (.fv n) (step (.fv n) (step (.fv n) s (.v (.view a x))).1 (.v (.aset a i k))).1 (.v (.get false x i))).2 = toString k ∧
+    (step (.fv n) (step (.fv n) (step (.fv n) s (.v (.view a x))).1 (.v (.set false x i k))).1 (.v (.aget a i))).2 = toString k := by
+  have hb : b < s.blocks.length := hinv.xs_lt x b hx
   have hv : Kind.isVec (.fv n) = true := rfl
   have hn := normIndex_eq_mod (s.read b).length i h0 h1
   have hp := normIndex_lt _ _ _ hn
   rw [step_view n s a x b hx]
-  refine ⟨rfl, ?_, ?_⟩
+  refine ⟨by rw [viewVals_fullView], ?_, ?_⟩
   · -- write through the view
     rw [step_aset (.fv n) hv _ a _ i k (bindA_arrs_same _ _ _) hi hk]
     simp only [fullView, hn]
-    rw [step_get (.fv n) hv _ x b i (by rw [write_xs, bindA_xs]; exact hx) hi]
+    rw [step_get (.fv n) hv _ x b i (by rw [write_xs, bindA_xs]; exact hx)]
     have hlen : b < (s.bindA a { blk := b, off := 0, step := 1, len := (s.read b).length }).blocks.length := hb
     rw [read_write_same _ b _ hlen, bindA_read]
     have hpos : (View.pos { blk := b, off := 0, step := 1, len := (s.read b).length }
@@ -115,7 +213,7 @@ theorem view_aliases (n : Nat) (s : State) (x a b : Nat) (i k : Int)
         = some (i % ((s.read b).length : Int)).toNat := by rw [List.length_set]; exact hn
     rw [getItem_of_norm _ i _ hn', getD_set_same _ _ k hp]
   · -- write through the vector
-    rw [step_set (.fv n) hv _ x b i k (by rw [bindA_xs]; exact hx) hi hk, bindA_read,
+    rw [step_set (.fv n) hv _ x b i k (by rw [bindA_xs]; exact hx) hk, bindA_read,
       setItem_of_norm _ i k _ hn]
     simp only []
     rw [step_aget (.fv n) hv _ a (fullView b (s.read b).length) i
@@ -129,23 +227,118 @@ theorem view_aliases (n : Nat) (s : State) (x a b : Nat) (i k : Int)
     rw [hpos, getD_set_same _ _ k hp]
 
 example :
-    let s0 := (step (.fv 3) {} (.new 0 .list [1, 2, 3])).1
-    let s1 := (step (.fv 3) s0 (.view 0 0)).1
-    let s2 := (step (.fv 3) s1 (.aset 0 (-1) 9)).1
-    (step (.fv 3) s2 (.get 0 2)).2 = "9" := by decide
+    let s0 := (step (.fv 3) {} (.v (.new 0 .list [1, 2, 3]))).1
+    let s1 := (step (.fv 3) s0 (.v (.view 0 0))).1
+    let s2 := (step (.fv 3) s1 (.v (.aset 0 (-1) 9))).1
+    (step (.fv 3) s2 (.v (.get false 0 2))).2 = "9" := by decide
+
+/-- A slice `a = v[i:j:st]` is a view of the same cells: entry `p` of the slice *is* the vector's entry
+    `start + p*st`.  A write through the slice is read back through the vector at that index and vice versa. -/
+theorem sliceview_aliases (n : Nat) (s : State) (hinv : Inv (.fv n) s) (x a b : Nat) (i j : Option Int) (st : Int)
+    (hst : st ≠ 0) (p : Nat) (k : Int) (hx : s.xs x = some b)
+    (hp : p < (sliceIdx n i j st).2) (hpi : okIdx (p : Int) = true) (hk : okInt k = true) :
+    let s1 := (step (.fv n) s (.v (.sl a x i j (some st)))).1
+    let pos : Int := (sliceIdx n i j st).1 + (p : Int) * st
+    (step (.fv n) (step (.fv n) s1 (.v (.aset a (p : Int) k))).1 (.v (.get false x pos))).2 = toString k ∧
+    (step (.fv n) (step (.fv n) s1 (.v (.set false x pos k))).1 (.v (.aget a (p : Int)))).2 = toString k := by
+  have hb : b < s.blocks.length := hinv.xs_lt x b hx
+  have hlen : (s.read b).length = n := hinv.xs_len n rfl x b hx
+  have hv : Kind.isVec (.fv n) = true := rfl
+  have hbnd := slice_in_bounds n i j st hst p hp
+  intro s1 pos
+  have hs1 : s1 = s.bindA a { blk := b, off := (sliceIdx n i j st).1, step := st, len := (sliceIdx n i j st).2 } := by
+    show (step (.fv n) s (.v (.sl a x i j (some st)))).1 = _
+    rw [step_sl n s a x b i j st hx hst, hlen]
+  -- the index `pos` is a plain in-range non-negative index of the vector, entry `p` an in-range index of the view
+  have hnp : normIndex (sliceIdx n i j st).2 (p : Int) = some p := by
+    rw [normIndex_nonneg _ _ (by omega) (by omega)]; simp
+  have hposNat : View.pos { blk := b, off := (sliceIdx n i j st).1, step := st, len := (sliceIdx n i j st).2 } p
+      = pos.toNat := rfl
+  have hpos_lt : pos.toNat < (s.read b).length := by rw [hlen]; omega
+  have hnpos : ∀ l : List Int, l.length = n → normIndex l.length pos = some pos.toNat := by
+    intro l hl
+    rw [hl]
+    exact normIndex_nonneg n pos hbnd.1 hbnd.2
+  rw [hs1]
+  constructor
+  · rw [step_aset (.fv n) hv _ a _ (p : Int) k (bindA_arrs_same _ _ _) hpi hk]
+    simp only [hnp, hposNat]
+    rw [step_get (.fv n) hv _ x b pos (by rw [write_xs, bindA_xs]; exact hx)]
+    rw [read_write_same _ b _ (by rw [bindA_blocks]; exact hb), bindA_read]
+    rw [getItem_of_norm _ pos _ (hnpos _ (by rw [List.length_set]; exact hlen)), getD_set_same _ _ k hpos_lt]
+  · rw [step_set (.fv n) hv _ x b pos k (by rw [bindA_xs]; exact hx) hk, bindA_read,
+      setItem_of_norm _ pos k _ (hnpos _ hlen)]
+    simp only []
+    rw [step_aget (.fv n) hv _ a _ (p : Int) (by rw [write_arrs]; exact bindA_arrs_same _ _ _) hpi]
+    simp only [hnp, hposNat]
+    rw [read_write_same _ b _ (by rw [bindA_blocks]; exact hb), getD_set_same _ _ k hpos_lt]
+
+example :
+    let s0 := (step (.fv 6) {} (.v (.new 0 .list [10, 11, 12, 13, 14, 15]))).1
+    let s1 := (step (.fv 6) s0 (.v (.sl 0 0 (some 4) (some 0) (some (-2))))).1      -- a0 = x0[4:0:-2] = [14, 12]
+    let s2 := (step (.fv 6) s1 (.v (.aset 0 1 99))).1
+    (step (.fv 6) s2 (.v (.get false 0 2))).2 = "99" ∧ (step (.fv 6) s2 (.v (.iter 0))).2 = "[10,11,99,13,14,15]" := by
+  decide
+
+/-- A NumPy-backed C++ vector (`NumPyVector` wrapping an array or a strided view of a vector) writes through: after
+    writing `vals` the view shows exactly `vals`, the cells of the underlying object that the view does not enumerate
+    keep their values, every other object is untouched, and no object changes its size. -/
+theorem npvector_writes_through_view (s : State) (v : View) (vals : List Int) (hv : ViewOK s v)
+    (hl : vals.length = v.len) :
+    (s.viewWrite v vals).viewVals v = vals ∧
+    (∀ q, (∀ j, j < v.len → v.pos j ≠ q) → ((s.viewWrite v vals).read v.blk)[q]? = (s.read v.blk)[q]?) ∧
+    (∀ c, c ≠ v.blk → (s.viewWrite v vals).read c = s.read c) ∧
+    ((s.viewWrite v vals).read v.blk).length = (s.read v.blk).length :=
+  viewWrite_spec s v vals hv hl
+
+/-- … instantiated for `x *= k` on a `NumPyVector` over any array register of a reachable state, and for the
+    `NumPyVector` over `numpy.array(v, copy=False)`: the FieldVector itself is scaled. -/
+theorem npvector_scale_visible (kd : Kind) (hkd : kd.isVec = true) (s : State) (hinv : Inv kd s) (a : Nat) (v : View)
+    (k : Int) (ha : s.arrs a = some v) (hk : okInt k = true) (hok : okVals (vscale k (s.viewVals v)) = true) :
+    let s1 := (step kd s (.v (.nscale a k))).1
+    s1.viewVals v = vscale k (s.viewVals v) ∧
+    (∀ c, c ≠ v.blk → s1.read c = s.read c) ∧
+    (∀ b, v = fullView b (s.read b).length → s1.read b = vscale k (s.read b)) := by
+  have hv := hinv.arrs_ok a v ha
+  have hl : (vscale k (s.viewVals v)).length = v.len := by simp [vscale, State.viewVals]
+  have hspec := viewWrite_spec s v (vscale k (s.viewVals v)) hv hl
+  intro s1
+  have hs1 : s1 = s.viewWrite v (vscale k (s.viewVals v)) := by
+    show (step kd s (.v (.nscale a k))).1 = _
+    rw [step_nscale kd hkd s a v k ha hk hok]
+  rw [hs1]
+  refine ⟨hspec.1, hspec.2.2.1, ?_⟩
+  intro b hvb
+  have h1 := hspec.1
+  have hlen := hspec.2.2.2
+  subst hvb
+  simp only [fullView] at h1 hlen ⊢
+  have h2 := viewVals_fullView (s.viewWrite (fullView b (s.read b).length) (vscale k (s.viewVals (fullView b (s.read b).length)))) b
+  simp only [fullView] at h2
+  rw [hlen] at h2
+  rw [← h2, h1]
+  have h3 := viewVals_fullView s b
+  simp only [fullView] at h3
+  rw [h3]
+
+example :
+    let s0 := (step (.fv 6) {} (.v (.new 0 .list [1, 2, 3, 4, 5, 6]))).1
+    let s1 := (step (.fv 6) s0 (.v (.sl 0 0 none none (some 2)))).1
+    (step (.fv 6) s1 (.v (.nscale 0 3))).2 = "[3,9,15]" ∧
+    (step (.fv 6) (step (.fv 6) s1 (.v (.nscale 0 3))).1 (.v (.iter 0))).2 = "[3,2,9,4,15,6]" := by decide
 
 /-- A copy (`T(v)`, `v.copy()`) denotes fresh cells: it has the same entries, and afterwards writes to either
     side are invisible on the other. -/
-theorem copy_independent (n : Nat) (s : State) (x y b : Nat) (i k j : Int) (viaMethod : Bool)
-    (hx : s.xs x = some b) (hb : b < s.blocks.length) (hxy : x ≠ y)
-    (hi : okIdx i = true) (hk : okInt k = true) (hj : okIdx j = true) :
-    let cp : Op := if viaMethod then .mcopy y x else .copy y x
+theorem copy_independent (n : Nat) (s : State) (hinv : Inv (.fv n) s) (x y b : Nat) (i k j : Int) (viaMethod : Bool)
+    (hx : s.xs x = some b) (hxy : x ≠ y) (hk : okInt k = true) :
+    let cp : Op := if viaMethod then .v (.mcopy y x) else .v (.copy y x)
     let s1 := (step (.fv n) s cp).1
-    (step (.fv n) s1 (.get y j)).2 = (step (.fv n) s (.get x j)).2 ∧
-    (step (.fv n) (step (.fv n) s1 (.set y i k)).1 (.get x j)).2 = (step (.fv n) s (.get x j)).2 ∧
-    (step (.fv n) (step (.fv n) s1 (.set x i k)).1 (.get y j)).2 = (step (.fv n) s (.get x j)).2 := by
+    (step (.fv n) s1 (.v (.get false y j))).2 = (step (.fv n) s (.v (.get false x j))).2 ∧
+    (step (.fv n) (step (.fv n) s1 (.v (.set false y i k))).1 (.v (.get false x j))).2 = (step (.fv n) s (.v (.get false x j))).2 ∧
+    (step (.fv n) (step (.fv n) s1 (.v (.set false x i k))).1 (.v (.get false y j))).2 = (step (.fv n) s (.v (.get false x j))).2 := by
+  have hb : b < s.blocks.length := hinv.xs_lt x b hx
   have hv : Kind.isVec (.fv n) = true := rfl
-  have hs1 : (step (.fv n) s (if viaMethod then Op.mcopy y x else Op.copy y x)).1
+  have hs1 : (step (.fv n) s (if viaMethod then Op.v (.mcopy y x) else Op.v (.copy y x))).1
       = (s.alloc (s.read b)).1.bindX y (s.alloc (s.read b)).2 := by
     cases viaMethod
     · simp only [Bool.false_eq_true, if_false]; rw [step_copy n s y x b hx]
@@ -161,53 +354,52 @@ theorem copy_independent (n : Nat) (s : State) (x y b : Nat) (i k j : Int) (viaM
     rw [bindX_read, read_alloc_new]
   have hro : ((s.alloc (s.read b)).1.bindX y (s.alloc (s.read b)).2).read b = s.read b := by
     rw [bindX_read, read_alloc_old s _ b hb]
-  have hlenc : (s.alloc (s.read b)).2 < ((s.alloc (s.read b)).1.bindX y (s.alloc (s.read b)).2).blocks.length := by
-    rw [bindX_blocks, alloc_blocks_length, alloc_fresh]; omega
   refine ⟨?_, ?_, ?_⟩
-  · rw [step_get (.fv n) hv _ y _ j hy1 hj, step_get (.fv n) hv s x b j hx hj, hrc]
-  · rw [step_set (.fv n) hv _ y _ i k hy1 hi hk, hrc]
+  · rw [step_get (.fv n) hv _ y _ j hy1, step_get (.fv n) hv s x b j hx, hrc]
+  · rw [step_set (.fv n) hv _ y _ i k hy1 hk, hrc]
     cases hset : setItem (s.read b) i k with
     | error e =>
       simp only []
-      rw [step_get (.fv n) hv _ x b j hx1 hj, step_get (.fv n) hv s x b j hx hj, hro]
+      rw [step_get (.fv n) hv _ x b j hx1, step_get (.fv n) hv s x b j hx, hro]
     | ok w =>
       simp only []
-      rw [step_get (.fv n) hv _ x b j (by rw [write_xs]; exact hx1) hj, step_get (.fv n) hv s x b j hx hj,
+      rw [step_get (.fv n) hv _ x b j (by rw [write_xs]; exact hx1), step_get (.fv n) hv s x b j hx,
         read_write_other _ _ b w hfresh, hro]
-  · rw [step_set (.fv n) hv _ x b i k hx1 hi hk, hro]
+  · rw [step_set (.fv n) hv _ x b i k hx1 hk, hro]
     cases hset : setItem (s.read b) i k with
     | error e =>
       simp only []
-      rw [step_get (.fv n) hv _ y _ j hy1 hj, step_get (.fv n) hv s x b j hx hj, hrc]
+      rw [step_get (.fv n) hv _ y _ j hy1, step_get (.fv n) hv s x b j hx, hrc]
     | ok w =>
       simp only []
-      rw [step_get (.fv n) hv _ y _ j (by rw [write_xs]; exact hy1) hj, step_get (.fv n) hv s x b j hx hj,
+      rw [step_get (.fv n) hv _ y _ j (by rw [write_xs]; exact hy1), step_get (.fv n) hv s x b j hx,
         read_write_other _ b _ w (Ne.symm hfresh), hrc]
 
 example :
-    let s0 := (step (.fv 2) {} (.new 0 .list [4, 5])).1
-    let s1 := (step (.fv 2) s0 (.mcopy 1 0)).1
-    let s2 := (step (.fv 2) s1 (.set 1 0 9)).1
-    (step (.fv 2) s2 (.get 0 0)).2 = "4" ∧ (step (.fv 2) s2 (.get 1 0)).2 = "9" := by decide
+    let s0 := (step (.fv 2) {} (.v (.new 0 .list [4, 5]))).1
+    let s1 := (step (.fv 2) s0 (.v (.mcopy 1 0))).1
+    let s2 := (step (.fv 2) s1 (.v (.set false 1 0 9))).1
+    (step (.fv 2) s2 (.v (.get false 0 0))).2 = "4" ∧ (step (.fv 2) s2 (.v (.get false 1 0))).2 = "9" := by decide
 
 /-- `numpy.array(v)` (a copy) shows the entries and is not affected by later writes to the vector. -/
-theorem npcopy_independent (kd : Kind) (hv : kd.isVec = true) (s : State) (x a b : Nat) (i k : Int)
-    (hx : s.xs x = some b) (hb : b < s.blocks.length) (hi : okIdx i = true) (hk : okInt k = true) :
-    let s1 := (step kd s (.npcopy a x)).1
-    (step kd s (.npcopy a x)).2 = showInts (s.read b) ∧
-    (step kd (step kd s1 (.set x i k)).1 (.alist a)).2 = showInts (s.read b) := by
+theorem npcopy_independent (kd : Kind) (hv : kd.isVec = true) (s : State) (hinv : Inv kd s) (x a b : Nat) (i k : Int)
+    (hx : s.xs x = some b) (hk : okInt k = true) :
+    let s1 := (step kd s (.v (.npcopy a x))).1
+    (step kd s (.v (.npcopy a x))).2 = showInts (s.read b) ∧
+    (step kd (step kd s1 (.v (.set false x i k))).1 (.v (.alist a))).2 = showInts (s.read b) := by
+  have hb : b < s.blocks.length := hinv.xs_lt x b hx
   rw [step_npcopy kd hv s a x b hx]
   refine ⟨rfl, ?_⟩
   simp only []
   have hfresh : b ≠ (s.alloc (s.read b)).2 := by rw [alloc_fresh]; omega
   have hview : ∀ st : State, st.arrs a = some (fullView (s.alloc (s.read b)).2 (s.read b).length) →
-      st.read (s.alloc (s.read b)).2 = s.read b → (step kd st (.alist a)).2 = showInts (s.read b) := by
+      st.read (s.alloc (s.read b)).2 = s.read b → (step kd st (.v (.alist a))).2 = showInts (s.read b) := by
     intro st ha hr
-    simp only [step, hv, ha]
+    rw [step_alist kd hv st a _ ha]
     have := viewVals_fullView st (s.alloc (s.read b)).2
     rw [hr] at this
     simp [this]
-  rw [step_set kd hv _ x b i k (by rw [bindA_xs, alloc_xs]; exact hx) hi hk]
+  rw [step_set kd hv _ x b i k (by rw [bindA_xs, alloc_xs]; exact hx) hk]
   cases hset : setItem (((s.alloc (s.read b)).1.bindA a (fullView (s.alloc (s.read b)).2 (s.read b).length)).read b) i k with
   | error e =>
     simp only []
@@ -218,7 +410,13 @@ theorem npcopy_independent (kd : Kind) (hv : kd.isVec = true) (s : State) (x a b
     · rw [write_arrs]; exact bindA_arrs_same _ _ _
     · rw [read_write_other _ b _ w hfresh, bindA_read, read_alloc_new]
 
-/-! ### arithmetic, comparison, norms: the bound operation is the C++ operation on the entries -/
+example :
+    let s0 := (step .dyn {} (.v (.new 0 .list [4, 5]))).1
+    let s1 := (step .dyn s0 (.v (.npcopy 0 0))).1
+    let s2 := (step .dyn s1 (.v (.set false 0 0 9))).1
+    (step .dyn s2 (.v (.alist 0))).2 = "[4,5]" ∧ (step .dyn s2 (.v (.iter 0))).2 = "[9,5]" := by decide
+
+/-! ### arithmetic, comparison, norms, string conversion: the bound operation is the C++ operation on the entries -/
 
 /-- Every copy-returning operator of `registerCopyingDenseVectorMethods` equals the plain vector operation on the
     entries (a list operand first becomes the vector `construct n L`); reflected subtraction has the sign of
@@ -243,12 +441,71 @@ theorem ops_agree_with_cxx_model (n : Nat) (v L : List Int) (k : Int) :
 
 example : pyRsubList 3 [10, 10] [1, 2, 3] = [9, 8, -3] ∧ pyAddList 2 [1, 2] [5, 6, 7] = [6, 8] := by decide
 
+/-- Operands of the other Python kinds stand for the same vector: a tuple, a NumPy array, a strided NumPy view or an
+    `array.array` is converted through the tuple / buffer constructor, i.e. to `construct n` of its entries. -/
+theorem operand_kinds_agree (n : Nat) (L : List Int) (st : Int) :
+    (Kind.fv n).operand .list L = construct n L ∧ (Kind.fv n).operand .tuple L = construct n L ∧
+    (Kind.fv n).operand (.buf st) L
+      = construct n ((List.range L.length).map (bufEntry (stridedMem st L).1 (stridedMem st L).2 st)) ∧
+    Kind.dyn.operand .list L = L := by
+  refine ⟨constructLoop_eq n L, constructLoop_eq n L, constructBuf_eq _ _ _ _ _, dynConstructLoop_eq L⟩
+
+example : (Kind.fv 3).operand (.buf (-1)) [7, 8] = [7, 8, 0] ∧ (Kind.fv 2).operand (.buf 2) [7, 8, 9] = [7, 8] ∧
+    (Kind.fv 2).operand .tuple [7] = [7, 0] := by decide
+
+/-- `FieldVector<K,1>` is also a scalar: `v + a`, `v - a`, `a + v`, `a - v` with a Python int or float act on the single
+    entry (`a - v` has the sign of `a - v[0]`); every other vector accepts only the int `0` (the start value of Python's
+    `sum`): `v + 0`, `v - 0`, `0 + v` are `v` itself (the same object), `0 - v` is a new vector `-v`; anything else is
+    rejected without touching the store. -/
+theorem scalar_ops_spec (kd : Kind) (hkd : kd.isVec = true) (s : State) (isSub r isFloat : Bool) (x y b : Nat) (k : Int)
+    (hy : s.xs y = some b) (hk : okInt k = true) :
+    (pyScalar false false 7 2 = 9 ∧ pyScalar true false 7 2 = 5 ∧ pyScalar false true 7 2 = 9 ∧ pyScalar true true 7 2 = -5) ∧
+    (kd.scalarMode = true → okVals [pyScalar isSub r ((s.read b).getD 0 0) k] = true →
+      (vecEff kd s (.intscal isSub r isFloat x y k)) = .newX x [pyScalar isSub r ((s.read b).getD 0 0) k]) ∧
+    (kd.scalarMode = false → isFloat = true → step kd s (.v (.intscal isSub r isFloat x y k)) = (s, "ERR:Type")) ∧
+    (kd.scalarMode = false → isFloat = false → k ≠ 0 → step kd s (.v (.intscal isSub r isFloat x y k)) = (s, "ERR:Value")) ∧
+    (kd.scalarMode = false → isFloat = false → k = 0 → (isSub && r) = false →
+      vecEff kd s (.intscal isSub r isFloat x y k) = .aliasX x b) ∧
+    (kd.scalarMode = false → isFloat = false → k = 0 → (isSub && r) = true →
+      vecEff kd s (.intscal isSub r isFloat x y k) = .newX x (vneg (s.read b))) := by
+  refine ⟨by decide, ?_, ?_, ?_, ?_, ?_⟩
+  · intro hsm hok
+    simp only [vecEff, hy, hk, hsm, effNew, hok, Bool.not_true, Bool.false_eq_true, if_false, if_true]
+  · intro hsm hf
+    rw [step_v kd hkd]
+    simp [vecEff, hy, hk, hsm, hf, Eff.apply, Err.show]
+  · intro hsm hf hk0
+    rw [step_v kd hkd]
+    simp [vecEff, hy, hk, hsm, hf, hk0, Eff.apply, Err.show]
+  · intro hsm hf hk0 hsr
+    subst hk0
+    simp [vecEff, hy, hk, hsm, hf, hsr]
+  · intro hsm hf hk0 hsr
+    subst hk0
+    simp only [Bool.and_eq_true] at hsr
+    simp [vecEff, hy, hk, hsm, hf, hsr.1, hsr.2, pyRsubZero, ← pyNeg_eq, pyNeg]
+
+example :
+    let s0 := (step (.fv 1) {} (.v (.new 0 .list [4]))).1
+    (step (.fv 1) s0 (.v (.intscal true true false 1 0 10))).2 = "[6]" ∧          -- 10 - v
+    (step (.fv 1) s0 (.v (.intscal true true true 1 0 10))).2 = "[6]" ∧           -- 10.0 - v
+    (step (.fv 1) s0 (.v (.scal .mul true 1 0 3))).2 = "f:12" := by decide         -- v * 3 (int): the dot product
+
+example :
+    let s0 := (step (.fv 2) {} (.v (.new 0 .list [4, 5]))).1
+    (step (.fv 2) s0 (.v (.intscal true true false 1 0 0))).2 = "[-4,-5]" ∧
+    (step (.fv 2) s0 (.v (.intscal false false false 1 0 3))).2 = "ERR:Value" ∧
+    (step (.fv 2) s0 (.v (.intscal false false true 1 0 0))).2 = "ERR:Type" := by decide
+
 /-- entrywise meaning of the plain operations (so that the statement above is not about opaque names) -/
 theorem plain_ops_entrywise (a b : List Int) (k : Int) (i : Nat) (x y : Int)
     (ha : a[i]? = some x) (hb : b[i]? = some y) :
     (vadd a b)[i]? = some (x + y) ∧ (vsub a b)[i]? = some (x - y) ∧ (vscale k a)[i]? = some (x * k) ∧
     (vneg a)[i]? = some (-x) := by
   simp [vadd, vsub, vscale, vneg, List.getElem?_zipWith, ha, hb]
+
+example : ([1, 2, 3] : List Int)[1]? = some 2 ∧ ([5, 6, 7] : List Int)[1]? = some 6 ∧ vsub [1, 2, 3] [5, 6, 7] = [-4, -4, -4] := by
+  decide
 
 /-- norms: the one norm is the sum of absolute values, the infinity norm is an upper bound that is attained
     (0 for the empty vector), `two_norm2` is the sum of squares. -/
@@ -258,20 +515,64 @@ theorem norms_spec (e : Int) (v : List Int) :
     (∀ a ∈ v, iabs a ≤ infNorm v) ∧ (infNorm v = 0 ∨ ∃ a ∈ v, infNorm v = iabs a) := by
   refine ⟨rfl, oneNorm_cons e v, rfl, twoNorm2_cons e v, (infNorm_foldl_ge v 0).2, infNorm_foldl_attained v 0⟩
 
+example : oneNorm [3, -4] = 7 ∧ infNorm [3, -4] = 4 ∧ twoNorm2 [3, -4] = 25 := by decide
+
 /-- in-place `x += y` / `x -= y` (also when `x` and `y` are the same object): the vector's cells afterwards hold
     the plain sum / difference of the entries before. -/
-theorem inplace_agrees (kd : Kind) (hv : kd.isVec = true) (s : State) (isSub : Bool) (x y bx by_ : Nat)
-    (hx : s.xs x = some bx) (hy : s.xs y = some by_) (hb : bx < s.blocks.length)
+theorem inplace_agrees (kd : Kind) (hv : kd.isVec = true) (s : State) (hinv : Inv kd s) (isSub : Bool) (x y bx by_ : Nat)
+    (hx : s.xs x = some bx) (hy : s.xs y = some by_)
     (hl : (s.read bx).length = (s.read by_).length)
     (hok : okVals (if isSub then vsub (s.read bx) (s.read by_) else vadd (s.read bx) (s.read by_)) = true) :
-    (step kd s (.inplaceV isSub x y)).1.read bx
+    (step kd s (.v (.inplaceV isSub x y))).1.read bx
       = (if isSub then vsub (s.read bx) (s.read by_) else vadd (s.read bx) (s.read by_)) := by
   rw [step_inplaceV kd hv s isSub x y bx by_ hx hy hl hok]
-  exact read_write_same s bx _ hb
+  exact read_write_same s bx _ (hinv.xs_lt x bx hx)
 
 example :
-    let s0 := (step .dyn {} (.new 0 .list [1, 2, 3])).1
-    (step .dyn s0 (.inplaceV false 0 0)).2 = "[2,4,6]" := by decide
+    let s0 := (step .dyn {} (.v (.new 0 .list [1, 2, 3]))).1
+    (step .dyn s0 (.v (.inplaceV false 0 0))).2 = "[2,4,6]" := by decide
+
+/-- String conversion: the delimiter loop of `Dune::Python::join` puts `", "` between the entries and nowhere else, so
+    `str(v)` is `"(" + ", ".join(entries) + ")"`; `()` for an empty vector. -/
+theorem str_spec (d : String) (l : List String) (v : List Int) :
+    joinLoop d l = d.intercalate l ∧ pyStr v = "(" ++ ", ".intercalate (v.map toString) ++ ")" ∧ pyStr [] = "()" := by
+  refine ⟨joinLoop_eq d l, ?_, by decide⟩
+  unfold pyStr
+  rw [joinLoop_eq]
+
+example : pyStr [1, -2, 3] = "(1, -2, 3)" ∧ pyStr [7] = "(7)" := by decide
+
+/-! ### all programs: no operation ever denotes memory outside an object -/
+
+/-- The store invariant `Inv` (registers name existing vectors; a `FieldVector<K,n>` has exactly `n` cells; every
+    NumPy view denotes cells inside an existing object; no array aliases a DynamicVector) holds initially … -/
+theorem invariant_initial (kd : Kind) : Inv kd {} := inv_init kd
+
+/-- … and is preserved by every bound operation, whatever its arguments. -/
+theorem invariant_step (kd : Kind) (hk : kd.isVec = true) (s : State) (h : Inv kd s) (op : Op) :
+    Inv kd (step kd s op).1 := step_inv kd hk s h op
+
+/-- Hence after *every* program of bound operations (any length, any operations, any arguments): every register
+    names an existing vector, every `FieldVector<K,n>` object has exactly `n` cells, and every entry of every NumPy
+    view / NumPy-backed C++ vector in an array register is an existing cell of an existing object (the `getD`/`set`
+    of the model's view operations never fall outside a block). -/
+theorem all_histories_safe (kd : Kind) (hk : kd.isVec = true) (ops : List Op) :
+    Inv kd (run kd {} ops).1 ∧
+    (∀ x b, (run kd {} ops).1.xs x = some b → b < (run kd {} ops).1.blocks.length) ∧
+    (∀ n, kd = .fv n → ∀ x b, (run kd {} ops).1.xs x = some b → ((run kd {} ops).1.read b).length = n) ∧
+    (∀ a v, (run kd {} ops).1.arrs a = some v → v.blk < (run kd {} ops).1.blocks.length ∧
+      ∀ j, j < v.len → 0 ≤ v.off + (j : Int) * v.step ∧ v.pos j < ((run kd {} ops).1.read v.blk).length) := by
+  have h := run_inv kd hk ops {} (inv_init kd)
+  refine ⟨h, h.xs_lt, h.xs_len, ?_⟩
+  intro a v ha
+  have hv := h.arrs_ok a v ha
+  exact ⟨hv.1, fun j hj => ⟨(hv.2.2 j hj).1, hv.pos_lt j hj⟩⟩
+
+example :
+    let s := (run (.fv 3) {} [.v (.new 0 .list [1, 2, 3]), .v (.sl 0 0 none none (some (-2))), .v (.aset 0 1 9)]).1
+    s.arrs 0 = some { blk := 0, off := 2, step := -2, len := 2 } ∧ s.read 0 = [9, 2, 3] := by
+  refine ⟨?_, by decide⟩
+  decide
 
 /-! ### tuple vectors -/
 
@@ -290,6 +591,6 @@ theorem tuplevector_preserves (byRef : Bool) (sh : List SlotTy) (V : List Int) (
 example : expected [.d, .f 2, .i] [17, 2, 5, 3] = [(.d, [17]), (.f 2, [2, 5]), (.i, [3])] := by decide
 
 example :
-    (step (.tup [.d, .f 2, .i] false) {} (.tnew 0 [17, 2, 5, 3])).2 = "[d:17,F2:[2,5],i:3]" := by decide
+    (step (.tup [.d, .f 2, .i] false) {} (.t (.tnew 0 [17, 2, 5, 3]))).2 = "[d:17,F2:[2,5],i:3]" := by decide
 
 end DV.C20
